@@ -47,11 +47,9 @@ func runC17(c *kit.Ctx) {
 
 	// ---- R1 schedule --------------------------------------------------------
 	c.StartRule("R1", "back-off schedule: 16ms, x2 below 5s, +5s below 30s, then constant", 7)
-	if obj := p.Pkg("").Scope().Lookup("backoffStart"); obj != nil {
-		if k, ok := obj.(*types.Const); ok {
-			v, _ := constant.Int64Val(k.Val())
-			c.Check(v == 16*ms, sl, "backoffStart", obj.Pos(), "backoffStart = 16ms", fmt.Sprintf("backoffStart is %dns, the stated schedule starts at 16ms", v))
-		}
+	if k := p.Const("", "backoffStart"); k != nil {
+		v, _ := constant.Int64Val(k.Val())
+		c.Check(v == 16*ms, sl, "backoffStart", k.Pos(), "backoffStart = 16ms", fmt.Sprintf("backoffStart is %dns, the stated schedule starts at 16ms", v))
 	} else {
 		c.Unk(sl, "backoffStart", token.NoPos, "constant backoffStart not found")
 	}
